@@ -76,7 +76,7 @@ Record Base (f : fdl) (apps : list A) (buf : bytes) (tl : Z) (m : mon) : Prop :=
   b_left : m_left m = length buf;
   b_pend : (f_pending f <= length buf)%nat;
   b_bytes : all_bytes buf;
-  b_tl : -1 <= tl
+  b_tl : 0 <= tl
 }.
 
 Lemma all_bytes_app (a b : bytes) : all_bytes a -> all_bytes b -> all_bytes (a ++ b).
@@ -139,7 +139,7 @@ Proof.
   - discriminate E.
 Qed.
 
-Lemma base_init f0 apps : fdl_new p = Ok f0 -> length apps = n -> Base f0 apps [] (-1) (mon_reset (view_of f0) 0).
+Lemma base_init f0 apps : fdl_new p = Ok f0 -> length apps = n -> Base f0 apps [] 0 (mon_reset (view_of f0) 0).
 Proof.
   intros E Hn. destruct (fdl_new_rep (length apps) p Hbv) as (f1 & E1 & R1 & _). rewrite E in E1. injection E1 as <-.
   destruct (fdl_new_fields _ _ E) as (_ & _ & _ & P1 & Q1).
@@ -556,7 +556,7 @@ Definition J1 (n : nat) (f : fdl) (apps : list A) (buf : bytes) (tl : Z) (m : mo
   Base A p n f apps buf tl m /\ TI f tl m /\ no_stale f.
 
 Lemma J1_init n f0 apps : fdl_new p = Ok f0 -> length apps = n -> no_stale f0 ->
-  J1 n f0 apps [] (-1) (mon_reset (view_of f0) 0) mon2_reset.
+  J1 n f0 apps [] 0 (mon_reset (view_of f0) 0) mon2_reset.
 Proof.
   intros E Hn HG. split; [eapply base_init; eassumption|]. split; [|exact HG].
   destruct (fdl_new_fields _ _ E) as (S1 & _ & L1 & _).
@@ -584,7 +584,7 @@ Qed.
 
 (* C01: no rule of C01 fires on a transcript of the model, outside the known class `no_stale` *)
 Theorem c01_oracle_sound (apps : list A) (ins : list minput) :
-  ins_ok (-1) ins -> transcript_ok A ops p no_stale apps ins ->
+  ins_ok 0 ins -> transcript_ok A ops p no_stale apps ins ->
   forall k r, In (k, r) (monitor p (length apps) (model_transcript A ops p apps ins)) -> rule_prop r <> PC01.
 Proof.
   intros Hok Hrun.
@@ -603,7 +603,7 @@ Qed.
 
 (* C06: the rule of C06 (the claim after the time-out) never fires, outside the same known class *)
 Theorem c06_oracle_sound (apps : list A) (ins : list minput) :
-  ins_ok (-1) ins -> transcript_ok A ops p no_stale apps ins ->
+  ins_ok 0 ins -> transcript_ok A ops p no_stale apps ins ->
   forall k r, In (k, r) (monitor p (length apps) (model_transcript A ops p apps ins)) -> rule_prop r <> PC06.
 Proof.
   intros Hok Hrun.
@@ -664,7 +664,7 @@ Proof.
 Qed.
 
 Theorem c05_oracle_sound (apps : list A) (ins : list minput) :
-  ins_ok (-1) ins ->
+  ins_ok 0 ins ->
   forall k r, In (k, r) (monitor p (length apps) (model_transcript A ops p apps ins)) -> rule_prop r <> PC05.
 Proof.
   intros Hok k r Hin. unfold monitor in Hin. destruct (builder_validb p); [|contradiction].
